@@ -366,12 +366,44 @@ def band(a, b):
                 if r is not None:
                     break
     if r is None:
+        # "X != 0" & y = "X != 0" when every possibly-set bit of X forces a literal under which the small function y is true
+        for x, y in ((a, b), (b, a)):
+            if y.kind == 's' and x.kind == 's' and len(x.sup) == 1 and x.sup[0][0] == '@' and x.tt == (0, 1):
+                ax = ATOMS[x.sup[0][1]]
+                if ax.kind == 'nz' and hasattr(ax.payload, 'bits'):
+                    live = [q for q in ax.payload.bits if q is not C0]
+                    if live and all(_forces_small(q, y) for q in live):
+                        r = x
+                        break
+    if r is None:
         r = _band(a, b)
     _MEMO[key] = r
     return r
 
 
-def _implies_payload_bit(x, at):
+def _forces_small(q, y):
+    """q => y for a small truth table y, through one literal q requires"""
+    if q is C1:
+        return False
+    if q is y:
+        return True
+    lits = list(must(q))
+    if q.kind == 's' and len(q.sup) == 1:
+        lits.append((q.sup[0], q.tt == (0, 1)))
+    for (v, p) in lits:
+        if v in y.sup and restrict(y, v, 1 if p else 0) is C1:
+            return True
+    return False
+
+
+def _implies_payload_bit(x, at, depth=0):
+    if depth == 0 and x.kind == 's' and len(x.sup) == 1 and x.sup[0][0] == '@' and x.tt == (0, 1):
+        # x is itself "X != 0": it implies "Y != 0" when every possibly-set bit of X implies a bit of Y
+        ax = ATOMS[x.sup[0][1]]
+        if ax.kind == 'nz' and ax is not at and hasattr(ax.payload, 'bits'):
+            live = [b for b in ax.payload.bits if b.kind != 'c' or b is C1]
+            if live and all(b is not C1 and _implies_payload_bit(b, at, 1) for b in live):
+                return True
     pl = at._pl
     if pl is None:
         live = [b for b in at.payload.bits if b.kind != 'c']
@@ -522,6 +554,14 @@ def bite(c, a, b):
         return a
     if c is C0:
         return b
+    if c.kind == 's' and len(c.sup) == 1 and c.sup[0][0] == '@' and ATOMS[c.sup[0][1]].kind == 'nz':
+        # if X != 0 then (q & !X[j]) else q   =   q & !X[j]      (X == 0 makes every X[j] false)
+        at = ATOMS[c.sup[0][1]]
+        hi, lo = (a, b) if c.tt == (0, 1) else (b, a)
+        if hasattr(at.payload, 'bits'):
+            for xj in at.payload.bits:
+                if xj.kind != 'c' and band(lo, bnot(xj)) is hi:
+                    return hi
     if c.kind == 's' and a.kind in 'sc' and b.kind in 'sc':
         sup = set(c.sup) | set(rawvars(a)) | set(rawvars(b))
         if len(sup) <= K:
